@@ -134,10 +134,8 @@ def run(tier, seed, replay):
     other_option_frames(chk)
     # inline content and stored content reach the analysis unchanged: File.source for every
     # path and every content (open(path).read() is an uninterpreted function of the path)
-    from ..specs import cli as CL
-    E = chk.engine()
-    CL.install_disk(E)
-    chk.run_contract(E, CL.file_source_contract())
+    from .frames_common import file_source_obligations
+    file_source_obligations(chk)
     # colour lemma: complete evaluation over the catalogue on the real formatter
     t0 = time.time()
     nat = run_native("options_harness", {"op": "colors"})
@@ -148,6 +146,11 @@ def run(tier, seed, replay):
     nat = run_native("options_harness", {"op": "inline_file"})
     chk.finite("file.inline_content_builds_the_same_file", not nat["violations"], nat["cases"], {"violations": nat["violations"][:3]},
                replay={"op": "inline_file"}, what=f"File(name, data) differs from File(path): {nat['violations'][:2]}",
+               time_s=time.time() - t0)
+    t0 = time.time()
+    nat = run_native("options_harness", {"op": "same_content"}, timeout=600)
+    chk.finite("file.two_stored_copies_report_what_the_inline_content_reports", not nat["violations"], nat["cases"],
+               {"violations": nat["violations"][:3]}, what=f"stored content versus inline content: {nat['violations'][:2]}",
                time_s=time.time() - t0)
     # bounded: the real command line under option combinations
     t0 = time.time()
